@@ -157,6 +157,7 @@ func buildSPModel(r *Report) *spModel {
 	m.A.Inline = inl
 	mk := func(fn *ssa.Function) *Table {
 		fc := m.A.ctxWith(fn, typedEnv(fn, spParamNames), "", 0)
+		fc.AliasSlots(spParamNames)
 		fc.ensureConds()
 		r.Fn(p.FnName(fn))
 		return &Table{R: r, A: m.A, FC: fc, Fn: fn, Reject: fc.NotAcceptFormula(), known: map[string]bool{}, name: p.FnName(fn)}
@@ -171,7 +172,9 @@ func buildSPModel(r *Report) *spModel {
 	return m
 }
 
-func isNow(s string) bool { return s == "now" }
+// isNow: the validation time: the time parameter (named "now" by role), or a reading of the library clock taken by the
+// validator itself (a call through the saml.TimeNow variable).
+func isNow(s string) bool { return s == "now" || strings.HasPrefix(s, "r:dyn:g:saml.TimeNow#") }
 
 // ------------------------------------------------------------------------------------------ C02
 
@@ -384,6 +387,42 @@ func paramSources(p *Prog, fn *ssa.Function, idx int, depth int, seen map[string
 	return out
 }
 
+// slotSources: like paramSources for a context slot (a parameter, or a field of a parameter object).
+func slotSources(p *Prog, fn *ssa.Function, slot ctxSlot, depth int, seen map[string]bool) []string {
+	if slot.Field < 0 {
+		return paramSources(p, fn, slot.Param, depth, seen)
+	}
+	key := fmt.Sprintf("%p/%d.%d", fn, slot.Param, slot.Field)
+	if seen[key] || depth > 6 {
+		return nil
+	}
+	seen[key] = true
+	sites := p.CallersOf(fn)
+	if len(sites) == 0 {
+		return []string{"field of a parameter of entry point " + p.FnName(fn)}
+	}
+	var out []string
+	for _, cs := range sites {
+		v, forwarded := slotArgAt(cs, slot)
+		if forwarded {
+			if q := cs.Arg(slot.Param); q != nil {
+				for _, prm := range cs.Caller.Params {
+					if isParamOrSpill(q, prm) {
+						out = append(out, slotSources(p, cs.Caller, ctxSlot{paramIndex(cs.Caller, prm), slot.Field}, depth+1, seen)...)
+					}
+				}
+			}
+			continue
+		}
+		if v == nil {
+			out = append(out, "other: unresolved field of the parameter object at "+p.InstrPos(cs.Instr.(ssa.Instruction)))
+			continue
+		}
+		out = append(out, valueSources(p, cs.Caller, v, depth, seen)...)
+	}
+	return out
+}
+
 func valueSources(p *Prog, caller *ssa.Function, v ssa.Value, depth int, seen map[string]bool) []string {
 	v = Resolve(v)
 	switch x := v.(type) {
@@ -434,18 +473,37 @@ func valueSources(p *Prog, caller *ssa.Function, v ssa.Value, depth int, seen ma
 func checkClock(r *Report, m *spModel, rule string) {
 	p := m.P
 	for _, fn := range []*ssa.Function{m.RespFn, m.AssertFn, m.ArtFn} {
-		idx := -1
-		for i, prm := range fn.Params {
-			if types.TypeString(prm.Type(), nil) == "time.Time" {
-				idx = i
-			}
-		}
 		cons := fmt.Sprintf("%s: validation time comes from the library clock", p.FnName(fn))
-		if idx < 0 {
-			r.Bad(rule, cons, p.Pos(fn.Pos()), "the validator takes no time parameter: it must read a clock itself")
+		slot, okSlot := slotOf(fn, isTimeType)
+		if !okSlot {
+			// no time parameter (directly or in a parameter object): the validator reads the clock itself; every instant
+			// it compares with must then be a call through the TimeNow variable
+			var srcs []string
+			for _, tb := range []*Table{m.Resp, m.Assert, m.Art} {
+				if tb == nil || tb.Fn != fn {
+					continue
+				}
+				for _, ai := range tb.atomsIn() {
+					if ai.Kind != "before" {
+						continue
+					}
+					for _, tt := range ai.TT {
+						if tt == nil || tt.BaseV == nil {
+							continue
+						}
+						if _, isField := tt.BaseV.(*ssa.UnOp); isField && !strings.Contains(tt.Base, "TimeNow") {
+							continue // the message's own instant
+						}
+						if strings.Contains(tt.Base, "TimeNow") {
+							srcs = append(srcs, "call through saml.TimeNow")
+						}
+					}
+				}
+			}
+			r.Check(len(srcs) > 0, rule, cons, p.Pos(fn.Pos()), "the validator compares with TimeNow() read in the function itself", "the validator takes no time parameter and does not compare with the library clock")
 			continue
 		}
-		srcs := paramSources(p, fn, idx, 0, map[string]bool{})
+		srcs := slotSources(p, fn, slot, 0, map[string]bool{})
 		ok := len(srcs) > 0
 		for _, s := range srcs {
 			if s != "call through saml.TimeNow" {
